@@ -33,7 +33,7 @@ def strategy(tier):
     def case(draw):
         mode = draw(st.sampled_from(["box", "box", "truth", "zero-bound"]))
         kinds = ["Square", "Normal"] if mode in ("truth", "zero-bound") else lossgen.KINDS
-        c = draw(lossgen.loss_case(kinds=kinds, weights=(mode != "truth"), target_param="subset-ordered", max_states=3,
+        c = draw(lossgen.loss_case(kinds=kinds, weights=(mode != "truth"), target_param="any-order", max_states=3,
                                    n_times=(4, 8), allow_time=False, catalogue=2))
         c["mode"] = mode
         if mode == "truth":
